@@ -8,7 +8,7 @@ Model driver for C02. One case = one history on a fresh Directory volume:
   seed:<B>:intact|corrupt|trash     environment: plant a copy of body B
   tick                              environment: all timestamps old, all trash deadlines expired, full marker stale
   full                              environment: the volume is marked full (<root>/full -> now)
-  put:<B>:<mode>                    PUT through the router          mode = run | k<i> | c<i> | m<j>x<chunk>
+  put:<B>:<mode>                    PUT through the router          mode = run | k<i> | c<i> | m<j>x<chunk> | f<i>[k<j>]
                                     (m: context cancelled when WriteBlock has read j chunks of <chunk> bytes from the pipe)
   wb:<B>:<chunk>:<rd>:<limit>:<mode>  WriteBlock with a scripted reader; rd = eof | e<j> | x<j>
   put2:<B>:<n>:<ja>:<jb>:cancel|finish|kill   two overlapping PUTs of the same block (see the Go driver)
@@ -55,11 +55,20 @@ def parseBody (s : String) : Option Body :=
 inductive Mode where
   | run | kill (i : Nat) | cancel (i : Nat)
   | mid (j chunk : Nat)     -- cancel when WriteBlock asks for more after j chunks of `chunk` bytes
+  | fault (i : Nat) (k : Option Nat)  -- temp file unlinked before the Chtimes / Rename at point i
 
 def parseMode (s : String) : Option Mode :=
   if s == "run" then some .run
   else if s.startsWith "k" then (s.drop 1).toNat?.map .kill
   else if s.startsWith "c" then (s.drop 1).toNat?.map .cancel
+  else if s.startsWith "f" then
+    match (s.drop 1).toString.splitOn "k" with
+    | [a] => a.toNat?.map (fun i => .fault i none)
+    | [a, b] =>
+      match a.toNat?, b.toNat? with
+      | some i, some k => some (.fault i (some k))
+      | _, _ => none
+    | _ => none
   else if s.startsWith "m" then
     match (s.drop 1).toString.splitOn "x" with
     | [a, b] =>
@@ -215,6 +224,36 @@ def stepOp (st : St) (op : String) (last : Bool) : Option (List (St × Option St
           else if !b.data.isEmpty then some [out errRun false]
           else if last then some [out eofRun false, out errRun false]
           else some [out eofRun false]
+    | .fault i kk =>
+      -- which call does the i-th point of the undisturbed run precede?
+      let (pos, pts) := killPrefix full.1 i
+      let lastPt := pts.getLast?.getD ""
+      let wfail : Option WBFail :=
+        if pos.isNone then none
+        else if lastPt == "WriteBlock:os.Chtimes:7" then some .chtimes
+        else if lastPt == "WriteBlock:v.os.Rename:13" then some .rename
+        else none
+      match wfail with
+      | none =>
+        -- no fault is injected at that point: plain run, or plain kill
+        let m : Mode := match kk with | some k => .kill k | none => .run
+        let (st2, killed, pts) := execMode st1 full.1 m
+        some [(st2, seg st2 (if killed then "killed" else code full.2) pts)]
+      | some wf =>
+        -- first attempt fails at that call (its temp file was unlinked just before), PutBlock
+        -- tries the volume again with a new temp file
+        let w1 := { wbIn st b chunks .eof wf with sfx := natDigits st.sfx }
+        let w2 := { wbIn st b chunks .eof .none with sfx := natDigits (st.sfx + 1) }
+        let r := mk [w1, w2] false false
+        let evs := match pos with
+          | some n => r.1.take n ++ [⟨none, .remove (tmpPath b.h w1.sfx)⟩] ++ r.1.drop n
+          | none => r.1
+        let st1' := { st1 with sfx := st.sfx + 2 }
+        let m : Mode := match kk with | some k => .kill k | none => .run
+        let (st2, killed, pts) := execMode st1' evs m
+        -- "F" follows the point at which the fault was injected (if the run got that far)
+        let pts := (pts.zipIdx).flatMap (fun (p, idx) => if idx == i then [p, "F"] else [p])
+        some [(st2, seg st2 (if killed then "killed" else code r.2) pts)]
     | .mid j chunk =>
       if !writes then some [out full false] else
       let all := splitChunks chunk b.data
